@@ -73,17 +73,68 @@ def run(chk, prog):
     evm = Evaluator(prog)
     rm = evm.eval_fn(s.methods["merge_with"], s.module, s)
     t = rm.ret
-    okm2 = is_call(t, "build") and is_t(t[2][0], "loop")
-    if okm2:
-        _, it_, init_, body_ = t[2][0]
-        k_ = mk_elem(it_)
+    # the merged dictionary, as (iterable, key, value): a loop of `d[key] = v` assignments or a dict comprehension
+    okm2, why_ = False, "result is not Static.build(<dict over the keys>)"
+    if is_call(t, "build") and len(t[2]) == 1 and (is_t(t[2][0], "loop") or is_t(t[2][0], "dictfam")):
+        d_ = t[2][0]
+        if is_t(d_, "loop"):
+            _, it_, init_, body_ = d_
+            k_ = mk_elem(it_)
+
+            def val_(x):
+                if is_t(x, "phi"):
+                    a_, b_ = val_(x[2]), val_(x[3])
+                    return None if a_ is None or b_ is None else ("phi", x[1], a_, b_)
+                return x[3] if is_t(x, "setitem") and x[1] == init_ and x[2] == k_ else None
+
+            value_ = val_(body_) if init_ == ("dict", ()) else None
+        else:
+            _, it_, key_, value_ = d_
+            k_ = mk_elem(it_)
+            value_ = value_ if key_ == k_ else None
         kset = lambda c_: ("call", G("set"), (("call", ("attr", ("attr", c_, "mapping"), "keys"), (), ()),), ())
-        sub_ = lambda c_: ("call", ("attr", c_, "get_submap"), (k_,), ())
-        in_ = lambda c_: ("cmp", "in", k_, ("attr", c_, "mapping"))
-        st_ = lambda v_: ("setitem", init_, k_, v_)
-        want_body = ("phi", ("bool", "and", (in_(C1), in_(C2))), st_(("call", P("merge"), (sub_(C1), sub_(C2)), ())), ("phi", in_(C1), st_(sub_(C1)), st_(sub_(C2))))
-        okm2 = it_ == ("bin", "|", kset(C1), kset(C2)) and init_ == ("dict", ()) and body_ == want_body
-    chk.require(okm2, "CHM-LEFTBIAS", "Static.merge_with", "shared keys merged with c1's sub-map on the left, at the same key", derived=show(t)[:300], expected="for key in keys(c1) | keys(c2): merge(c1.get_submap(key), c2.get_submap(key)) if in both, else the side that has it", where=W(s, "merge_with"))
+        sub_ = lambda c_: ("call", c_, (k_,), ())
+
+        def member_(c):
+            """k in <keys of c1 / c2> -> 1 / 2"""
+            if is_t(c, "cmp") and c[1] in ("in", "not in") and c[2] == k_:
+                for n_, c_ in ((1, C1), (2, C2)):
+                    if c[3] in (("attr", c_, "mapping"), kset(c_), ("call", ("attr", ("attr", c_, "mapping"), "keys"), (), ())):
+                        return n_, c[1] == "in"
+            return None
+
+        def truth_(test, asg):
+            if is_t(test, "bool"):
+                vs = [truth_(x, asg) for x in test[2]]
+                if any(v is None for v in vs):
+                    return None
+                return all(vs) if test[1] == "and" else any(vs)
+            if is_t(test, "un") and test[1] == "not":
+                v = truth_(test[2], asg)
+                return None if v is None else not v
+            m = member_(test)
+            if m is None:
+                return None
+            return asg[m[0]] if m[1] else not asg[m[0]]
+
+        def pick_(x, asg):
+            while is_t(x, "phi"):
+                v = truth_(x[1], asg)
+                if v is None:
+                    return None
+                x = x[2] if v else x[3]
+            return x
+
+        if value_ is None:
+            why_ = "entries are not stored at the key being visited"
+        elif it_ != ("bin", "|", kset(C1), kset(C2)) and it_ != ("bin", "|", kset(C2), kset(C1)):
+            why_ = "the keys visited are not keys(c1) | keys(c2)"
+        else:
+            # the three feasible membership cases of a key of the union, decided by finite evaluation of the entry's decision tree
+            want_ = {(True, True): ("call", P("merge"), (sub_(C1), sub_(C2)), ()), (True, False): sub_(C1), (False, True): sub_(C2)}
+            bad_ = [f"key in c1={a1}, in c2={a2}: {show(pick_(value_, {1: a1, 2: a2}))[:80]}" for (a1, a2), w_ in want_.items() if pick_(value_, {1: a1, 2: a2}) != w_]
+            okm2, why_ = not bad_, "; ".join(bad_)
+    chk.require(okm2, "CHM-LEFTBIAS", "Static.merge_with", "shared keys merged with c1's sub-map on the left, at the same key", derived=(why_ + " :: " if not okm2 else "") + show(t)[:300], expected="for key in keys(c1) | keys(c2): merge(c1.get_submap(key), c2.get_submap(key)) if in both, else the side that has it", where=W(s, "merge_with"))
     r = ev.eval_fn(s.methods["filter"], s.module, s)
     t = r.ret
     keys = ("call", ("attr", ("attr", SELF, "mapping"), "keys"), (), ())
@@ -94,8 +145,8 @@ def run(chk, prog):
     chk.require(bool(oksub), "CHM-RECURSE", "Static.filter", "every key filtered with selection(addr); a flag passes unchanged", derived=show(t)[:260], expected="Static.build({addr: self.get_submap(addr).filter(selection(addr) | flag) for every addr})", where=W(s, "filter"))
     r = ev.eval_fn(s.methods["get_inner_map"], s.module, s)
     got = {}
-    for conds, ret in r.returns:
-        got["static" if any(is_t(tt, "isinst") and p for tt, p in conds) else "dynamic"] = ret
+    if is_t(r.ret, "phi") and is_t(r.ret[1], "isinst") and r.ret[1][1] == ADDR:
+        got = {"static": r.ret[2], "dynamic": r.ret[3]}
     vget = ("call", ("attr", ("attr", SELF, "mapping"), "get"), (ADDR, ("dict", ())), ())
     okg = got.get("static") == ("phi", ("isinst", vget, "dict"), ("ctor", "Static", (vget,), ()), vget) and is_t(got.get("dynamic"), "treemap") and got["dynamic"][1] == ("index", ("leaf", SELF), ADDR)
     chk.require(okg, "CHM-RECURSE", "Static.get_inner_map", "static key -> that entry (empty if absent); index -> every leaf indexed", derived={k: show(v)[:100] for k, v in got.items()}.__str__(), expected="mapping.get(addr, {}) / tree_map(v -> v[addr], self)", where=W(s, "get_inner_map"))
